@@ -77,6 +77,13 @@ void submit(cocls::thread_pool &pool, int kind, int j, int stop_mode, std::vecto
         bare.push_back({std::move(fut), j});
         break; }
     case 2: {
+        if (j % 4 == 2) {      // a function without a result: run() returns future<void>
+            auto f = pool.run([&pool, j] { ran(pool, j); });
+            dsim::cell_set(SUBMITTED + j, 1);
+            try { f.wait(); if (!dsim::cell_get(RAN + j)) dsim::fail("C11.value", "run() future<void> of job %d is resolved but the function did not run", j); }
+            catch (const cocls::await_canceled_exception &) { cancelled(j); }
+            break;
+        }
         auto f = pool.run([&pool, j] { ran(pool, j); if (j % 2) throw vs::TestError(j); return 200L + j; });      // odd jobs end with an exception: still "ran", reported through the future
         dsim::cell_set(SUBMITTED + j, 1);
         try { long v = f.wait(); if (v != 200 + j || j % 2) dsim::fail("C11.value", "run() future of job %d holds %ld", j, v); if (!dsim::cell_get(RAN + j)) dsim::fail("C11.value", "run() future of job %d has a value but the function did not run", j); }
@@ -129,7 +136,8 @@ void dsim_scenario() {
     dsim::at_end(judge);
     int nworkers = 1 + dsim::choose(3);
     int nsub = 1 + dsim::choose(3);            // submitter threads
-    int stop_mode = dsim::choose(5);           // 0 destructor only, 1 owner stop() concurrently, 2 stop from a job on a worker, 3 two concurrent stop(), 4 stop before any submission
+    int stop_mode = dsim::choose(6);           // 0 destructor only, 1 owner stop() concurrently, 2 stop from a job on a worker, 3 two concurrent stop(), 4 stop before any submission,
+                                               // 5 the owner destroys the pool only after every job has run: nothing may be dropped, also no job that carries a bare handle
     int njobs[3], kinds[3][3]; int total = 0;
     int nprivate = 0;
     for (int s = 0; s < nsub; s++) { njobs[s] = 1 + dsim::choose(3); for (int k = 0; k < njobs[s]; k++) { kinds[s][k] = dsim::choose(7); if (kinds[s][k] == 6 && nprivate++) kinds[s][k] = 4; } total += njobs[s]; }     // at most one job with a private pool
@@ -169,6 +177,7 @@ void dsim_scenario() {
         // a stop() issued from a worker must have returned before the owner may destroy the pool; if job 0 never ran there is none
         // (in this mode nobody else stops the pool, so job 0 is certain to run)
         if (stop_mode == 2) dsim::wait_cell(STOP_RETURNED, 1);
+        if (stop_mode == 5) for (int j = 0; j < total; j++) dsim::wait_cell(RAN + j, 1);      // a job that never runs leaves everybody blocked: deadlock, not the recorded finding
         dsim::cell_set(STOP_CALLED, 1);
         pool.reset();                              // destructor: stops and joins every worker
     }
